@@ -131,8 +131,8 @@ Proof. exact windex_new_n_ok. Qed.
 Print Assumptions windex_new_ok.
 
 (** f64 weights (corrupt.rs): the sampled index names a weight *)
-Theorem weighted_sample_f_in_range : forall ws st i st', wf st ->
-  weighted_sample_f ws st = inr (i, st') -> (i < length ws)%nat /\ wf st'.
+Theorem weighted_sample_f_in_range : forall ws st i total st', wf st ->
+  weighted_sample_f ws st = inr (i, total, st') -> (i < length ws)%nat /\ wf st'.
 Proof. exact weighted_sample_f_spec. Qed.
 Print Assumptions weighted_sample_f_in_range.
 
@@ -222,7 +222,7 @@ Fixpoint wn (k : nat) (ws : list N) (st : rng) : list nat * rng :=
 Fixpoint wfl (k : nat) (ws : list f64w) (st : rng) : list nat :=
   match k with
   | O => []
-  | S k' => match weighted_sample_f ws st with inr (i, st) => i :: wfl k' ws st | _ => [] end
+  | S k' => match weighted_sample_f ws st with inr (i, _, st) => i :: wfl k' ws st | _ => [] end
   end.
 Example weighted_seed_0 :
   (let (a, st) := wn 12 [3; 0; 5; 2] (seed_from_u64 0) in
